@@ -526,8 +526,13 @@ def show(desc):
 
 
 def replay(case):
-    app, msg, kind = check_case(case["r"], case["repo"], case["mode"], case.get("partner"), case.get("first", True))
-    return [msg] if msg else []
+    partner = case.get("partner")
+    app, msg, kind = check_case(case["r"], case["repo"], case["mode"], partner, case.get("first", True))
+    if not msg:
+        return []
+    repo = [tuple(t) for t in case["repo"]]
+    partner = [tuple(t) for t in partner] if partner is not None else None
+    return [mk_case(case["r"], repo, case["mode"], msg, kind, partner, case.get("first", True))["msg"]]
 
 
 # ----------------------------------------------------------------------------------------------
